@@ -27,7 +27,7 @@ type WriterCfg struct {
 	ChannelsTimeSeries int     `json:"ch_ts"`
 	RetryAttempts      int     `json:"retry"`
 	ClusterName        string  `json:"cluster"`
-	FingerPrintType    uint    `json:"fp_type"`
+	Bernstein          bool    `json:"bernstein"` // optional 32-bit fingerprint type (default: CityHash)
 	CacheTTLms         int     `json:"cache_ttl_ms"` // 0 = the writer's own 30 min cache
 }
 
@@ -54,7 +54,10 @@ func StartWriter(cfg WriterCfg, l *Ledger) *Writer {
 	}
 	c.Setting.SYSTEM_SETTINGS.RetryAttempts = cfg.RetryAttempts
 	c.Setting.SYSTEM_SETTINGS.RetryTimeoutS = 0
-	c.Setting.FingerPrintType = cfg.FingerPrintType
+	c.Setting.FingerPrintType = 1 // writer.FINGERPRINT_CityHash (the default)
+	if cfg.Bernstein {
+		c.Setting.FingerPrintType = 0 // writer.FINGERPRINT_Bernstein
+	}
 	wconfig.Cloki = c
 	p := &plugin.QrynWriterPlugin{}
 	p.ServicesObject.DatabaseNodeMap = []model.DataDatabasesMap{{ClokiBaseDataBase: c.Setting.DATABASE_DATA[0]}}
